@@ -156,7 +156,7 @@ type SourceIndex struct {
 
 	Version    version.Version
 	Maintainer string
-	Uploaders  string `delim:","`
+	Uploaders  []string `delim:"," strip:"\n\r\t "`
 
 	Architecture []dependency.Arch
 
